@@ -75,7 +75,8 @@ def fastToInt (op : String) (v : Rat) (throughFloat : Bool) (w : Nat) : String :
 
 /-- (model output, routine class) of the fast build for an operation, `none` = same code path as generic -/
 def fastOut (n es : Nat) (op : String) (x : Nat) (sx : Int) (b : Nat) : Option (String × String) :=
-  let sgnOfU : Int := toSigned 64 x                     -- an unsigned source after the `(long long)` cast
+  -- an unsigned long (long) source after `rhs > 0x7FFF'FFFF'FFFF'FFFFull ? 0x7FFF'FFFF'FFFF'FFFFll : (long long)(rhs)`
+  let sgnOfU : Int := if x > 0x7FFFFFFFFFFFFFFF then 0x7FFFFFFFFFFFFFFF else (x : Int)
   match n, es with
   | 2, 0 =>
     if ["add", "sub", "mul", "div"].contains op then (tableBinary 2 0 op x b).map (fun r => (toHex r, s!"fast.posit_2_0.{op}_lookup"))
@@ -83,10 +84,10 @@ def fastOut (n es : Nat) (op : String) (x : Nat) (sx : Int) (b : Nat) : Option (
     | "rec" => (tableRec 2 0 x).map (fun r => (toHex r, "fast.posit_2_0.reciprocal_lookup"))
     | "cmp" => some (toHex (cmpMaskOf (tableLt 2 0) 2 x b), "fast.posit_2_0.less_than_lookup")
     | "fi" | "fl" | "fll" => some (toHex (assignInt_2_0 sx), "fast.posit_2_0.assign_int")
-    | "ff" => some (toHex (assignFP_2_0 8 23 x), "fast.posit_2_0.float_assign.abs_below_quarter")
-    | "fd" => some (toHex (assignFP_2_0 11 52 x), "fast.posit_2_0.float_assign.abs_below_quarter")
-    | "td" => some (toHex (toDouble_2_0 x), "fast.posit_2_0.to_double.nar_reads_minus_inf")
-    | "tf" => some (optHex (doubleToFloat (toDouble_2_0 x)), "fast.posit_2_0.to_double.nar_reads_minus_inf")
+    | "ff" => some (toHex (assignFP_2_0 8 23 x), "fast.posit_2_0.float_assign")
+    | "fd" => some (toHex (assignFP_2_0 11 52 x), "fast.posit_2_0.float_assign")
+    | "td" => some (optHex (toDouble_2_0 x), "fast.posit_2_0.to_double")
+    | "tf" => some (optHex ((toDouble_2_0 x).bind doubleToFloat), "fast.posit_2_0.to_double")
     | _ => none
   | 3, 0 =>
     if ["add", "sub", "mul", "div"].contains op then (tableBinary 3 0 op x b).map (fun r => (toHex r, s!"fast.posit_3_0.{op}_lookup"))
@@ -94,9 +95,9 @@ def fastOut (n es : Nat) (op : String) (x : Nat) (sx : Int) (b : Nat) : Option (
     | "rec" => (tableRec 3 0 x).map (fun r => (toHex r, "fast.posit_3_0.reciprocal_lookup"))
     | "cmp" => some (toHex (cmpMaskOf (tableLt 3 0) 3 x b), "fast.posit_3_0.less_than_lookup")
     | "fi" => some (toHex (assignInt_3_0 sx), "fast.posit_3_0.assign_int")
-    | "fll" => some (toHex (assignLongLong_3_0 sx), "fast.posit_3_0.assign_longlong.cast_to_int")
-    | "tf" => some (match FP.decode 8 23 (toFloatBits_3_0 x) with | .nan => "nan" | _ => toHex (toFloatBits_3_0 x), "fast.posit_3_0.values_lookup.nar_reads_minus_inf")
-    | "td" => some (optHex (floatBitsToDouble (toFloatBits_3_0 x)), "fast.posit_3_0.values_lookup.nar_reads_minus_inf")
+    | "fll" => some (toHex (assignInt_3_0 sx), "fast.posit_3_0.assign_int")
+    | "tf" => some (match FP.decode 8 23 (toFloatBits_3_0 x) with | .nan => "nan" | _ => toHex (toFloatBits_3_0 x), "fast.posit_3_0.values_lookup")
+    | "td" => some (optHex (floatBitsToDouble (toFloatBits_3_0 x)), "fast.posit_3_0.values_lookup")
     | "ti" | "tl" | "tll" | "tui" | "tul" | "tull" =>
       (match valueOf 8 23 (toFloatBits_3_0 x) with
        | some v => some (fastToInt op v false (if op == "ti" || op == "tui" then 32 else 64), "fast.posit_3_0.values_lookup")
@@ -106,7 +107,7 @@ def fastOut (n es : Nat) (op : String) (x : Nat) (sx : Int) (b : Nat) : Option (
     if ["add", "sub", "mul", "div"].contains op then (tableBinary 3 1 op x b).map (fun r => (toHex r, s!"fast.posit_3_1.{op}_lookup"))
     else match op with
     | "rec" => (tableRec 3 1 x).map (fun r => (toHex r, "fast.posit_3_1.reciprocal_lookup"))
-    | "cmp" => some (toHex (cmpMaskOf (tableLt 3 1) 3 x b), "fast.posit_3_1.less_than.unsigned_compare")
+    | "cmp" => some (toHex (cmpMaskOf (tableLt 3 1) 3 x b), "fast.posit_3_1.less_than")
     | "neg" => some (toHex (neg_3_1 x), "fast.posit_3_1.negate")
     | "fi" => some (toHex (assignInt_3_1 sx), "fast.posit_3_1.assign_int")
     | "ff" => some (toHex (assignFP_3_1 8 23 x), "fast.posit_3_1.float_assign")
@@ -124,49 +125,61 @@ def fastOut (n es : Nat) (op : String) (x : Nat) (sx : Int) (b : Nat) : Option (
     | "rec" => (tableRec 4 0 x).map (fun r => (toHex r, "fast.posit_4_0.reciprocal_lookup"))
     | "cmp" => some (toHex (cmpMaskOf (tableLt 4 0) 4 x b), "fast.posit_4_0.less_than.by_subtraction")
     | "fi" | "fl" | "fll" => some (toHex (assignInt_4_0 sx), "fast.posit_4_0.assign_int")
-    | "fui" | "ful" | "full" => some (toHex (assignInt_4_0 sgnOfU), "fast.posit_4_0.assign_unsigned.cast_to_longlong")
+    | "fui" | "ful" | "full" => some (toHex (assignInt_4_0 sgnOfU), "fast.posit_4_0.assign_unsigned")
     | _ => none
   | 8, 0 =>
     match op with
-    | "fi" | "fl" | "fll" => some (toHex (integerAssign8 sx), if sx > 0 then "fast.posit_8_0.integer_assign.positive" else "fast.posit_8_0.integer_assign.negative")
-    | "fui" | "ful" | "full" => some (toHex (integerAssign8 sgnOfU), if sgnOfU > 0 then "fast.posit_8_0.integer_assign.positive" else "fast.posit_8_0.assign_unsigned.cast_to_longlong")
+    | "fi" | "fl" | "fll" => some (toHex (integerAssign8 sx), "fast.posit_8_0.integer_assign")
+    | "fui" | "ful" | "full" => some (toHex (integerAssign8 sgnOfU), "fast.posit_8_0.assign_unsigned")
     | "fd" => some (match doubleToFloat x with | some f => toHex (fromFloat 8 0 f) | none => "80", "fast.posit_8_0.assign_double.via_float")
     | _ => none
   | 8, 2 =>
     match op with
-    | "fi" | "fl" | "fll" => some (toHex (integerAssign8 sx), if sx > 0 then "fast.posit_8_2.integer_assign.positive" else "fast.posit_8_2.integer_assign.negative_es0_layout")
-    | "fui" | "ful" | "full" => some (toHex (integerAssign8 sgnOfU), if sgnOfU > 0 then "fast.posit_8_2.integer_assign.positive" else "fast.posit_8_2.assign_unsigned.cast_to_longlong")
+    | "fi" | "fl" | "fll" => some (toHex (integerAssign8_2 sx), if sx > 0 then "fast.posit_8_2.integer_assign.positive" else "fast.posit_8_2.integer_assign.negative_es0_layout")
+    | "fui" | "ful" | "full" => some (toHex (integerAssign8_2 sgnOfU), if sgnOfU > 0 then "fast.posit_8_2.integer_assign.positive" else "fast.posit_8_2.assign_unsigned")
     | "ff" => some (toHex (floatAssign_8_2 x), "fast.posit_8_2.float_assign.truncates")
     | "fd" => some (match doubleToFloat x with | some f => toHex (floatAssign_8_2 f) | none => "80", "fast.posit_8_2.assign_double.via_float_truncates")
     | "sqrt" => some (toHex (positSqrtFast 8 2 x), "fast.posit_8_2.sqrt.via_float_assign")
     | _ => none
   | 16, 1 =>
     match op with
-    | "ful" | "full" => some (toHex (fromInt 16 1 sgnOfU), "fast.posit_16_1.assign_unsigned.cast_to_long")
+    | "ful" | "full" => some (toHex (fromInt 16 1 sgnOfU), "fast.posit_16_1.assign_unsigned")
     | "sqrt" => some (toHex (sqrt_16_1 x), "fast.posit_16_1.sqrt.integer_algorithm")
     | _ => none
   | 16, 2 =>
     match op with
-    | "fi" | "fl" | "fll" => some (toHex (integerAssign_16_2 sx), "fast.posit_16_2.integer_assign.rounding_mask")
-    | "fui" | "ful" | "full" => some (toHex (integerAssign_16_2 sgnOfU), if sgnOfU ≥ 0 then "fast.posit_16_2.integer_assign.rounding_mask" else "fast.posit_16_2.assign_unsigned.cast_to_longlong")
-    | "ti" | "tui" =>
+    | "fi" | "fl" | "fll" => some (toHex (integerAssign_16_2 sx), "fast.posit_16_2.integer_assign")
+    | "fui" | "ful" | "full" => some (toHex (integerAssign_16_2 sgnOfU), "fast.posit_16_2.assign_unsigned")
+    | "ti" =>                                      -- int(to_float()): an 11-bit fraction is exact in a float
       (match positVal 16 2 x with
-       | some v => some (fastToInt op v true 32, "fast.posit_16_2.to_int.via_float.out_of_int_range")
+       | some v => some (fastToInt op v true 32, "fast.posit_16_2.to_int")
+       | none => none)
+    | "tui" =>                                     -- (unsigned int)(to_long()), to_long() = long(to_double())
+      (match positVal 16 2 x with
+       | some v => some (toHex (cvtt 64 v % 2 ^ 32), "fast.posit_16_2.to_uint")
        | none => none)
     | _ => none
   | 32, 2 =>
     match op with
-    | "fi" | "fl" => some (toHex (integerAssign_32_2 sx), "fast.posit_32_2.integer_assign.keeps_low_32_bits")
-    | "fui" => some (toHex (integerAssign_32_2 (x : Int)), "fast.posit_32_2.integer_assign.keeps_low_32_bits")
-    | "ti" | "tui" =>
+    | "fi" | "fl" => some (toHex (integerAssign_32_2 sx), "fast.posit_32_2.integer_assign")
+    | "fui" => some (toHex (integerAssign_32_2 (x : Int)), "fast.posit_32_2.integer_assign")
+    | "ti" =>                                      -- int(to_double())
       (match positVal 32 2 x with
-       | some v => some (fastToInt op v true 32, "fast.posit_32_2.to_int.via_float")
+       | some v => some (fastToInt op v false 32, "fast.posit_32_2.to_int")
        | none => none)
-    | "tl" | "tll" | "tul" | "tull" =>
+    | "tui" =>                                     -- (unsigned int)(to_long()), to_long() = long(to_double())
       (match positVal 32 2 x with
-       | some v => some (fastToInt op v false 64, "fast.posit_32_2.to_long.out_of_long_range")
+       | some v => some (toHex (cvtt 64 v % 2 ^ 32), "fast.posit_32_2.to_uint")
        | none => none)
-    | "mul" => some (toHex (mul_32_2 x b), "fast.posit_32_2.round_mul.product_is_2p119")
+    | "tl" | "tll" =>
+      (match positVal 32 2 x with
+       | some v => some (fastToInt op v false 64, "fast.posit_32_2.to_long")
+       | none => none)
+    | "tul" | "tull" =>                            -- isneg() ? (unsigned long)(to_long()) : (unsigned long)(to_long_double())
+      (match positVal 32 2 x with
+       | some v => some (toHex (if v < 0 then cvtt 64 v else ofSigned 64 (truncZ v)), "fast.posit_32_2.to_ulong")
+       | none => none)
+    | "mul" => some (toHex (mul_32_2 x b), "fast.posit_32_2.round_mul")
     | "sqrt" => some (toHex (sqrt_32_2 x), "fast.posit_32_2.sqrt.integer_algorithm")
     | _ => none
   | _, _ => none
@@ -187,10 +200,8 @@ def purecMissing (op : String) : Bool := ["fl", "fll", "fui", "ful", "full", "tl
 def purecOut (op : String) (x : Nat) (sx : Int) (b : Nat) : Option (String × String) :=
   match op with
   | "rec" => some (toHex (Posit.div 8 0 0x40 x), "purec.posit8_reciprocal")
-  | "cmp" => some (toHex (PositC.relMask8 x b), "purec.posit8_lessThan.unsigned_compare")
-  | "cmp3" => some (showSHex (PositC.cmpp8 x b),
-      if (PositC.cmpp8 x b > 0) == (Posit.lt 8 b x) && (PositC.cmpp8 x b < 0) == (Posit.lt 8 x b)
-      then "purec.posit8_cmpp8.difference_not_unit" else "purec.posit8_cmpp8.unsigned_difference_wrong_sign")
+  | "cmp" => some (toHex (PositC.relMask8 x b), "purec.posit8_lessThan")
+  | "cmp3" => some (showSHex (PositC.cmpp8 x b), "purec.posit8_cmpp8")
   | "fi" => some (toHex (PositC.fromsi sx), "purec.posit8_fromsi")
   | "fd" => some (match doubleToFloat x with | some f => toHex (fromFloat 8 0 f) | none => "80", "purec.posit8_fromd.via_float")
   | "sqrt" => some (toHex (PositC.sqrt8 x), "purec.posit8_sqrt.via_sqrtf")
